@@ -8,6 +8,16 @@ import os
 
 from . import vlib
 
+PROPS = {
+    "C18": dict(
+        spec="Selections",
+        category="model_checking", design_ref="§5 C18",
+        technique="TLA+ spec (Selections.tla) model-checked by TLC; TLC-enumerated terms replayed on the real Selection classes and compared with the TLC-computed denotation",
+        text="Bounded-exhaustive: TLC enumerates every selection term up to depth 2 (thorough: 3) over 12 atoms plus LCG-generated depth-4 terms, checks Mem<=>Den, the sub-selection law and soundness of the simplifying constructors on the spec itself, and every term is replayed on the implementation for all 40 addresses of length <=3 (membership via [], in, and every prefix/suffix split of sel(a)[b]), both with public constructors and raw dataclasses.",
+        note="Trusted: TLC, the Python term builder (public API calls only), address universe {a,b,c}^<=3.",
+    ),
+}
+
 ALPHA = ["a", "b", "c"]
 ADDRS = [()] + [(x,) for x in ALPHA] + [(x, y) for x in ALPHA for y in ALPHA] + \
         [(x, y, z) for x in ALPHA for y in ALPHA for z in ALPHA]
